@@ -123,7 +123,8 @@ func ruleSets(upstream string) hx.RuleSetFor {
 var (
 	prefixes = []string{"/a/", "/n/", "/o/", "/cel/", "/dup/", "/cond/", "/s/a%20b/"}
 	ids      = []string{"v1", "v%201", "x%2Fy", "%C3%A4", "100%25", "100%2525"}
-	queries  = []string{"", "q=1&q=2", "q=a%20b"}
+	// next=/a?b=c&x=1: a second, literal question mark belongs to the query
+	queries  = []string{"", "q=1&q=2", "q=a%20b", "next=/a?b=c&x=1"}
 	hdrKinds = []string{"none", "single", "repeated", "lower", "xfcc", "authorization"}
 	cookies  = []string{"", "c=1", "c=1; d=2", "c=1; d=2; c=3"}
 	// json-type-without-body / form-type-without-body: a client that always names its content type
